@@ -61,6 +61,10 @@ def structures(tier, seed):
             if chunking != "non-core" and op in ("fc-scalar", "fc-vector", "integrate", "average", "derivative", "apply_ufunc", "diff-multi"):
                 continue
             out.append({"sid": f"lazy;op={op};chunks={chunking}", "part": "lazy", "op": op, "chunking": chunking})
+    # several axes in one call: chunked along an operated axis WITHOUT inner/outer, another operated axis in one chunk WITH outer/inner:
+    # not the statement's exception (the data is not chunked along the inner/outer axis) - must be accepted like the in-memory call
+    for op in ("multi-diff-Youter-X", "multi-interp-X-Yinner", "multi-max-Xouter-chunkedY"):
+        out.append({"sid": f"lazy;op={op};chunks=per-axis", "part": "lazy", "op": op, "chunking": "core-2" if "chunkedY" not in op else "core-y2"})
     for op, pt in (("diff", "outer"), ("interp", "inner"), ("min", "outer")):
         out.append({"sid": f"refused;op={op};center->{pt};chunked-along-the-axis", "part": "lazy", "op": op, "chunking": "core-2", "to": pt, "expect": "NotImplementedError"})
     out.append({"sid": "canary;eager-evaluation-is-trapped", "part": "canary"})
@@ -247,13 +251,21 @@ def run_lazy(s):
     def build(w, lazy):
         fc = op.startswith("fc")
         layout = {"X": {"center": "x_c", "left": "x_l", "outer": "x_o", "inner": "x_i"}, "Y": {"center": "y_c", "left": "y_l"}}
+        multi = op.startswith("multi")
+        if multi:
+            layout["Y"].update({"outer": "y_o", "inner": "y_i"})
         cx = [mk_int(z3.Int(f"cx{i}")) for i in range(3)]
         for cc in cx:
             symx.assume(zint(cc) >= 1)
-        nch = {"non-core": 1, "core-2": 2, "core-3": 3}[chunking]
+        nch = {"non-core": 1, "core-2": 2, "core-3": 3, "core-y2": 1}[chunking]
+        cy = [mk_int(z3.Int(f"cy{i}")) for i in range(2)]
+        for cc in cy:
+            symx.assume(zint(cc) >= 1)
         n = mk_int(sum((zint(cc) for cc in cx[:nch]), z3.IntVal(0)) + (0 if nch > 1 else 1))
         if fc:
             ny = n
+        elif chunking == "core-y2":
+            ny = mk_int(zint(cy[0]) + zint(cy[1]))
         else:
             ny = w.size("n_Y", 2)
         t1, t2 = mk_int(z3.Int("t1")), mk_int(z3.Int("t2"))
@@ -262,6 +274,8 @@ def run_lazy(s):
         dims = {"x_c": n, "x_l": n, "x_o": mk_int(zint(n) + 1), "x_i": mk_int(zint(n) - 1), "y_c": ny, "y_l": ny, "t": nt}
         if fc:
             dims["face"] = 2
+        if multi:
+            dims["y_o"], dims["y_i"] = mk_int(zint(ny) + 1), mk_int(zint(ny) - 1)
         ds = w.dataset(dims, coords={d: (d,) for d in dims if d != "face"}, data_vars={"dx_c": ("x_c",), "dx_l": ("x_l",), "dy_c": ("y_c",)})
         kw = dict(periodic=False, metrics={("X",): ["dx_c", "dx_l"], ("Y",): ["dy_c"]})
         if fc:
@@ -280,6 +294,8 @@ def run_lazy(s):
                     d[x] = (1, 1)
                 elif x in ("x_c", "x_l") and nch > 1:
                     d[x] = tuple(cx[:nch])
+                elif x in ("y_c", "y_l") and chunking == "core-y2":
+                    d[x] = tuple(cy)
                 else:
                     d[x] = (dims[x],)
             return d
@@ -297,6 +313,12 @@ def run_lazy(s):
             return getattr(g, op)(c, "X", to=to, boundary="extend")
         if op == "diff-multi":
             return g.diff(c, ["X", "Y"], boundary="extend")
+        if op == "multi-diff-Youter-X":
+            return g.diff(c, ["Y", "X"], to={"Y": "outer", "X": "left"}, boundary="extend")
+        if op == "multi-interp-X-Yinner":
+            return g.interp(c, ["X", "Y"], to={"X": "left", "Y": "inner"}, boundary="extend")
+        if op == "multi-max-Xouter-chunkedY":
+            return g.max(c, ["X", "Y"], to={"X": "outer", "Y": "left"}, boundary="extend")
         if op == "cumsum":
             return g.cumsum(c, "X", to="left", boundary="fill", fill_value=0.0)
         if op == "derivative":
@@ -459,4 +481,109 @@ def replay(ob):
         return {"confirmed": bool(wit.get("cases")), "text": "\n".join(wit.get("cases") or [])}
     if wit.get("part") == "refusal":
         return {"confirmed": True, "text": f"_check_if_length_would_change: {wit.get('cases')}"}
+    if wit.get("part") == "lazy":
+        return replay_lazy(wit)
     return {"confirmed": False, "text": f"{wit.get('clause')}: {wit.get('detail')} (symbolic run of the real code; structure {wit.get('s')})"}
+
+
+def replay_lazy(wit):
+    """real xarray + real dask: the structure's call on in-memory data and on the same data chunked as in the structure"""
+    import warnings
+
+    import numpy as np
+    import xarray as xr
+    import xgcm
+
+    warnings.simplefilter("ignore")
+    s = wit["s"]
+    op, chunking = s["op"], s["chunking"]
+    fc = op.startswith("fc")
+    multi = op.startswith("multi")
+    nx = 6
+    ny = nx if fc else 4
+    nt = 3
+    coords = {"X": {"center": "x_c", "left": "x_l", "outer": "x_o", "inner": "x_i"}, "Y": {"center": "y_c", "left": "y_l"}}
+    dd = {"x_c": nx, "x_l": nx, "x_o": nx + 1, "x_i": nx - 1, "y_c": ny, "y_l": ny, "t": nt}
+    if multi:
+        coords["Y"].update({"outer": "y_o", "inner": "y_i"})
+        dd.update({"y_o": ny + 1, "y_i": ny - 1})
+    ds = xr.Dataset(coords={d: np.arange(n) for d, n in dd.items()})
+    rng = np.random.default_rng(1)
+    ds["dx_c"] = ("x_c", rng.random(nx) + 1)
+    ds["dx_l"] = ("x_l", rng.random(nx) + 1)
+    ds["dy_c"] = ("y_c", rng.random(ny) + 1)
+    kw = dict(periodic=False, metrics={("X",): ["dx_c", "dx_l"], ("Y",): ["dy_c"]}, autoparse_metadata=False)
+    face, fshape = (), ()
+    if fc:
+        ds = ds.assign_coords(face=np.arange(2))
+        kw["face_connections"] = {"face": {0: {"X": (None, (1, "X", False))}, 1: {"X": ((0, "X", False), None)}}}
+        face, fshape = ("face",), (2,)
+    g = xgcm.Grid(ds, coords=coords, **kw)
+    c0 = xr.DataArray(rng.random((nt,) + fshape + (ny, nx)), dims=("t",) + face + ("y_c", "x_c"), name="C")
+    u0 = xr.DataArray(rng.random((nt,) + fshape + (ny, nx)), dims=("t",) + face + ("y_c", "x_l"), name="U")
+    v0 = xr.DataArray(rng.random((nt,) + fshape + (ny, nx)), dims=("t",) + face + ("y_l", "x_c"), name="V")
+    xch = {"non-core": (nx,), "core-2": (4, 2), "core-3": (1, 3, 2), "core-y2": (nx,)}[chunking]
+    ych = (3, 1) if chunking == "core-y2" else (ny,)
+
+    def lazy(a):
+        ch = {"t": (2, 1)}
+        for d in a.dims:
+            if d in ("x_c", "x_l"):
+                ch[d] = xch
+            if d in ("y_c", "y_l"):
+                ch[d] = ych
+            if d == "face":
+                ch[d] = (1, 1)
+        return a.chunk(ch)
+
+    def call(c, u, v):
+        to = s.get("to", "left")
+        if op in ("diff", "interp", "min", "max"):
+            return getattr(g, op)(c, "X", to=to, boundary="extend")
+        if op == "diff-multi":
+            return g.diff(c, ["X", "Y"], boundary="extend")
+        if op == "multi-diff-Youter-X":
+            return g.diff(c, ["Y", "X"], to={"Y": "outer", "X": "left"}, boundary="extend")
+        if op == "multi-interp-X-Yinner":
+            return g.interp(c, ["X", "Y"], to={"X": "left", "Y": "inner"}, boundary="extend")
+        if op == "multi-max-Xouter-chunkedY":
+            return g.max(c, ["X", "Y"], to={"X": "outer", "Y": "left"}, boundary="extend")
+        if op == "cumsum":
+            return g.cumsum(c, "X", to="left", boundary="fill", fill_value=0.0)
+        if op == "derivative":
+            return g.derivative(c, "X", to="left", boundary="extend")
+        if op == "integrate":
+            return g.integrate(c, ["X", "Y"])
+        if op == "average":
+            return g.average(c, "X")
+        if op == "cumint":
+            return g.cumint(c, "X", to="left", boundary="fill", fill_value=0.0)
+        if op in ("vector-simple", "fc-vector"):
+            return g.diff({"X": u}, "X", to="center", other_component={"Y": v}, boundary="fill")
+        if op == "fc-scalar":
+            return g.interp(c, "X", to="left", boundary="fill")
+        return None
+    if op == "apply_ufunc":
+        return {"confirmed": False, "text": "no native replay for the uninterpreted user function"}
+    res = {}
+    for kind, args in (("in-memory", (c0, u0, v0)), ("lazy", (lazy(c0), lazy(u0), lazy(v0)))):
+        try:
+            r = call(*args)
+            res[kind] = ("returned", r)
+        except Exception as e:  # noqa
+            res[kind] = ("raised", f"{type(e).__name__}: {e}"[:300])
+    text = [f"operation {op}, chunks along x {xch}, along y {ych}, along t (2, 1)", f"in-memory: {res['in-memory'][0]} {res['in-memory'][1] if res['in-memory'][0] == 'raised' else ''}",
+            f"lazy: {res['lazy'][0]} {res['lazy'][1] if res['lazy'][0] == 'raised' else ''}"]
+    if s.get("expect"):
+        conf = not (res["lazy"][0] == "raised" and res["lazy"][1].startswith(s["expect"]) and res["in-memory"][0] == "returned")
+        return {"confirmed": conf, "text": "\n".join(text)}
+    if res["in-memory"][0] != res["lazy"][0]:
+        return {"confirmed": True, "text": "\n".join(text + ["REAL CODE: lazy input is not accepted where the in-memory input is (or the reverse)"])}
+    if res["lazy"][0] == "returned":
+        e, l = res["in-memory"][1], res["lazy"][1]
+        if not hasattr(l.data, "dask"):
+            return {"confirmed": True, "text": "\n".join(text + ["REAL CODE: the result of the lazy call is not lazy"])}
+        lv = l.compute()
+        if e.dims != lv.dims or not np.allclose(e.values, lv.values, equal_nan=True):
+            return {"confirmed": True, "text": "\n".join(text + [f"REAL CODE: lazy result differs from the in-memory result (dims {lv.dims} vs {e.dims})"])}
+    return {"confirmed": False, "text": "\n".join(text + ["lazy and in-memory agree natively"])}
